@@ -23,7 +23,7 @@ RULE = ("seeded history plans over the 17 estimators (ops: new/set_params/fit/re
         "other data and dimensionality/failing fit/set_threshold/calibrate/queries/"
         "get_metric/get_mahalanobis_matrix/mutation of returned matrix/clone/pickle "
         "restart/ambient RNG perturbation/ARPACK reseed or forced non-convergence/"
-        "preprocessor fault); a run is non-trivial when at least one successful fit was "
+        "preprocessor fault/fit interrupted at a drawn metric-learn line event (crash point) and then repeated); a run is non-trivial when at least one successful fit was "
         "compared with its fresh-object reference; distinct = distinct (op kind:estimator) "
         "sequences")
 REAL_VS_STUB = dict(real=["metric_learn (all of it)", "numpy", "scipy (ARPACK, L-BFGS-B)",
@@ -32,7 +32,9 @@ REAL_VS_STUB = dict(real=["metric_learn (all of it)", "numpy", "scipy (ARPACK, L
                     stub=["preprocessor PointStore (user-supplied reader)",
                           "ARPACK start vector / forced ArpackNoConvergence",
                           "module-level time in nca/mlkr/_util (simulated clock)",
-                          "ambient numpy/python global RNG state"])
+                          "ambient numpy/python global RNG state",
+                          "crash points: sys.settrace line events inside metric_learn (interruption "
+                          "by SimInterrupt(KeyboardInterrupt) / MemoryError at the k-th line of a fit)"])
 ASSUMPTIONS = ["equality tolerance 1e-9 relative on M, distances and thresholds (ARPACK "
                "start vectors legitimately move results by ~1e-15)",
                "RandomState instances as random_state are not used in equality oracles"]
@@ -179,7 +181,9 @@ class Oracle(object):
     if bad:
       raise Violation("args_untouched", "op=%s,arg=preprocessor" % kind,
                       "backing store %s modified" % bad)
-    if live.get("args_modified"):
+    if live.get("args_modified") and not live.get("interrupted"):
+      # (a call the simulator interrupted half-way is not required to have
+      # restored its arguments; what it must not do is leak into later fits)
       names = live.get("arg_names")
       am = live["args_modified"]
       label = (names[am[0]] if names and isinstance(am[0], int) else am[0])
@@ -299,7 +303,7 @@ def gen_plan(seed, tier):
   # unknown=True: refits of supervised learners alternate between the full
   # and the partially unknown label vector on the same points
   return gen_history(seed, tier, fresh_p=0.004 if tier == "thorough" else 0.003,
-                     weights=dict(fault=3), unknown=True)
+                     weights=dict(fault=3, interrupt=6), unknown=True)
 
 
 def run_plan(plan):
